@@ -65,7 +65,34 @@ def constants():
         c.update(_packet_literals(ec))
     except Exception:
         pass
+    try:    # C16: mailbox types, CoE services and SDO command bytes
+        c["mbxTypes"] = [m.value for m in ec.MBXType]
+        for m in ec.MBXType:
+            c["mbx_" + m.name] = int(m.value)
+        for m in ec.CoECmd:
+            c["coe_" + m.name] = int(m.value)
+        for m in ec.ODCmd:
+            c["od_" + m.name] = int(m.value)
+    except Exception:
+        pass
+    try:    # C15: the mailbox counter cycle, observed on the real next_counter (ret % mbxMod + 1 from mbxStart)
+        c.update(_mbx_cycle())
+    except Exception:
+        pass
     return c
+
+
+def _mbx_cycle():
+    """C15: run the real MailboxLock.next_counter 64 times under the lock"""
+    import asyncio
+    from ebpfcat import lock as lk
+
+    async def cyc():
+        m = lk.MailboxLock()
+        async with m:
+            return [m.next_counter() for _ in range(64)]
+    seq = asyncio.run(cyc())
+    return {"mbxStart": int(seq[0]), "mbxMod": int(max(seq))}
 
 
 def render(c):
